@@ -1,6 +1,7 @@
 P = dict(
     harness='c18_strcache.cpp',
-    variants=['asan'],
+    variants=['asan', 'memcheck'],
+    memcheck_stride=dict(quick=100, thorough=40),
     level='exploration',
     technique='runtime monitoring: shadow interval map of handed-out buffers with per-buffer fill patterns, size-class model from the statement, exactly-once ledger in a recording underlying TestMemoryAllocator (returned blocks poisoned and held), output capture for the one-time warning, ASan/UBSan build; '
               'SimpleStringInternalCache driven directly, through SimpleStringCacheAllocator, and as GlobalSimpleStringCache under real SimpleString traffic',
